@@ -172,6 +172,7 @@ def ex_filter(ctx, ev, statements, seed=0):
     ev = [tuple(e) for e in ev]
     rng = numpy.random.default_rng([seed, 4])
     rc = {"exec": "filter", "args": {"ev": ev, "statements": statements, "seed": seed}}
+    ctx.current_case = rc
     src = mk(ev)
     rows = rows_of(src)
     want = ref_keep(rows, statements)
@@ -250,6 +251,7 @@ def ex_spatial(ctx, lat_case, n, seed=0):
     rng = numpy.random.default_rng([seed, 5])
     reg, model, origins = c01.build_region(lat_case)
     rc = {"exec": "spatial", "args": {"lat_case": lat_case, "n": n, "seed": seed}}
+    ctx.current_case = rc
     tags = {"spatial": True, "flags": lat_case.get("flags") is not None, "holes": len(lat_case["cells"]) < lat_case["nx"] * lat_case["ny"]}
     dh = float(lat_case["dh"])
     # interior points of every kind of lattice position (active, hole/flagged-out, outside the box); no band points
@@ -289,6 +291,7 @@ def ex_load(ctx, ev, statements, lat_case, seed=0):
     tmp = tempfile.mkdtemp(prefix="c04-", dir=os.environ.get("VERIF_TMP", "/var/tmp"))
     path = os.path.join(tmp, "cat.csv")
     rc = {"exec": "load", "args": {"ev": ev, "statements": statements, "lat_case": lat_case, "seed": seed}}
+    ctx.current_case = rc
     try:
         src.write_ascii(path)
         ok, a, tb = ctx.call(csep.load_catalog, path, apply_filters=True, filters=list(statements), region=reg)
